@@ -115,7 +115,7 @@ func (e *env) pruneOp(ctx sdk.Context, clientID string, all bool) string {
 // famStore: store-level histories on a client store with crafted (revision, height) pairs whose big-endian
 // encodings contain 0x2f, 0x00 and 0xff bytes: iteration order, neighbour lookup, pruning.
 func famStore(r *hx.Rng, o *sink, e *env) {
-	n := hx.N(36, 700)
+	n := hx.N(36, 400)
 	for hi := 0; hi < n; hi++ {
 		ctx := e.branch()
 		clientID := "07-tendermint-900"
